@@ -206,3 +206,33 @@ Fixpoint run_ops32 (s : rl) (ops : list op) : rl * list (option outcome) :=
   end.
 End A32.
 
+
+(* ---------------------------------------------------------------------------------------------
+   Concurrent guesses for one user.  validateUserTOTP takes totpLocalTateLimitMutex, reads the
+   entry, tests the spacing and stores the new lastCheckTime BEFORE it releases the mutex: the gate
+   is one atomic step, and N requests in flight pass it in SOME order — `run` on the requests in
+   that order (`gate_run`; thread i submits `thr i` = its clock reading and what its code is worth).
+   `split_run` is the other shape — read the entry under the mutex, test the copy outside, write the
+   result back when the evaluation is over — and exists only for the refutation in Props/C14.v.   *)
+Definition gate_run (k : consts) (esc : bool) (thr : nat -> Z * verdict) (s : rl) (order : list nat) : rl * list outcome :=
+  run k esc s (map thr order).
+
+Inductive gstep := GRead (i : nat) | GFinish (i : nat).
+Record gstate := { g_entry : rl; g_copies : list (nat * rl); g_outs : list (nat * outcome) }.
+
+Fixpoint copy_of (i : nat) (l : list (nat * rl)) : option rl :=
+  match l with [] => None | (j, c) :: r => if Nat.eqb i j then Some c else copy_of i r end.
+
+Definition split_step (k : consts) (esc : bool) (thr : nat -> Z * verdict) (s : gstate) (x : gstep) : gstate :=
+  match x with
+  | GRead i => {| g_entry := g_entry s; g_copies := (i, g_entry s) :: g_copies s; g_outs := g_outs s |}
+  | GFinish i =>
+      match copy_of i (g_copies s) with
+      | None => s
+      | Some c => let (c', o) := attempt k esc c (fst (thr i)) (snd (thr i)) in
+                  {| g_entry := c'; g_copies := g_copies s; g_outs := g_outs s ++ [(i, o)] |}
+      end
+  end.
+
+Definition split_run (k : consts) (esc : bool) (thr : nat -> Z * verdict) (s : rl) (sched : list gstep) : gstate :=
+  fold_left (split_step k esc thr) sched {| g_entry := s; g_copies := []; g_outs := [] |}.
